@@ -1,8 +1,8 @@
 //! C03 — incremental processing equals one-shot processing for every chunking.
-use checks::real::*;
+use checks::oracle::{check_cuts, check_partition, one_shot};
 use proptest::prelude::*;
 use serde_json::{json, Value};
-use vcore::drive::{case_bytes, chunks_from_cuts, chunks_from_mask, enum_strings, stream_par, Verdict};
+use vcore::drive::{case_bytes, chunks_from_mask, enum_strings, stream_par, Verdict};
 use vcore::gen::{self, StreamCfg};
 use vcore::rt::{self, digest, esc, Acc, Args, Report};
 use vcore::vt::{self, St};
@@ -29,88 +29,8 @@ fn nonground_mask(input: &[u8]) -> (u64, u64) {
     (ng, cb)
 }
 
-struct OneShot {
-    bytes: Vec<u8>,
-    chars: StyledChars,
-    valid: bool,
-}
 
-fn one_shot(input: &[u8]) -> OneShot {
-    OneShot {
-        bytes: strip_bytes_vec(input),
-        chars: extract_chunked(&[input]),
-        valid: vt::is_valid_utf8(input),
-    }
-}
 
-fn check_partition(input: &[u8], one: &OneShot, chunks: &[&[u8]], str_ok: bool) -> Result<(), String> {
-    let show = || {
-        chunks
-            .iter()
-            .map(|c| esc(c))
-            .collect::<Vec<_>>()
-            .join(" | ")
-    };
-    let a = strip_bytes_chunked(chunks)?;
-    if a != one.bytes {
-        return Err(format!(
-            "StripBytes over chunks [{}] gave {} but one-shot gives {}",
-            show(),
-            esc(&a),
-            esc(&one.bytes)
-        ));
-    }
-    let a = strip_stream_write_all_chunked(chunks)?;
-    if a != one.bytes {
-        return Err(format!(
-            "StripStream::write_all over chunks [{}] gave {} but one-shot gives {}",
-            show(),
-            esc(&a),
-            esc(&one.bytes)
-        ));
-    }
-    let a = strip_stream_write_chunked(chunks)?;
-    if a != one.bytes {
-        return Err(format!(
-            "StripStream::write over chunks [{}] gave {} but one-shot gives {}",
-            show(),
-            esc(&a),
-            esc(&one.bytes)
-        ));
-    }
-    let c = extract_chunked(chunks);
-    if c != one.chars {
-        let i = c
-            .iter()
-            .zip(one.chars.iter())
-            .position(|(x, y)| x != y)
-            .unwrap_or(c.len().min(one.chars.len()));
-        return Err(format!(
-            "WinconBytes over chunks [{}] differs from one-shot at character #{i}: chunked {:?}, one-shot {:?}",
-            show(),
-            c.get(i),
-            one.chars.get(i)
-        ));
-    }
-    if one.valid && str_ok {
-        let strs: Vec<&str> = chunks
-            .iter()
-            .map(|c| std::str::from_utf8(c).expect("cut at character boundaries"))
-            .collect();
-        let whole = std::str::from_utf8(input).unwrap();
-        let one_s = strip_str_to_string(whole);
-        let a = strip_str_chunked(&strs)?;
-        if a != one_s {
-            return Err(format!(
-                "StripStr over chunks [{}] gave {} but strip_str gives {}",
-                show(),
-                esc(&a),
-                esc(&one_s)
-            ));
-        }
-    }
-    Ok(())
-}
 
 /// all partitions of one input (len <= 17)
 fn all_partitions(input: &[u8], acc: &mut Acc) -> Result<(), String> {
@@ -155,23 +75,6 @@ fn cuts_from_fracs(len: usize, mode: u8, fracs: &[u16], input: &[u8]) -> Vec<usi
     }
 }
 
-fn check_cuts(input: &[u8], cuts: &[usize]) -> Result<bool, String> {
-    let one = one_shot(input);
-    let chunks = chunks_from_cuts(input, cuts);
-    let str_ok = cuts
-        .iter()
-        .all(|&c| c >= input.len() || !(0x80..=0xbf).contains(&input[c]));
-    check_partition(input, &one, &chunks, str_ok)?;
-    let mut m = vt::Machine::new();
-    let mut nt = false;
-    for (i, &b) in input.iter().enumerate() {
-        if i > 0 && m.st != St::Ground && cuts.binary_search(&i).is_ok() {
-            nt = true;
-        }
-        m.feed(b);
-    }
-    Ok(nt)
-}
 
 fn enum_partitions(
     rep: &mut Report,
